@@ -28,6 +28,9 @@ typedef struct {
     int abbr;		/* 1 rows, 2 columns, 3 both: every standard is given
 			   with the abbreviated measurement matrix where
 			   vnacal_new_add_*(3) accepts one */
+    int p16;		/* 16-term universe that also holds standards leaving
+			   a port open; judged by the rank of the documented
+			   linear system (cs_terms_rank16) */
 } shape_t;
 
 static const shape_t shapes_quick[] = {
@@ -64,6 +67,8 @@ static const shape_t shapes_quick[] = {
     { VNACAL_TE10, 2, 2, 0, 0, 3 }, { VNACAL_UE10, 2, 2, 0, 0, 3 },
     { VNACAL_UE14, 2, 2, 0, 0, 3 }, { VNACAL_E12, 2, 2, 0, 0, 3 },
     { VNACAL_T16, 2, 2, 0, 0, 1 },  { VNACAL_U16, 2, 2, 0, 0, 2 },
+    /* 16-term sets mixing full two-port standards with one-port ones */
+    { VNACAL_T16, 2, 2, 0, 0, 0, 1 }, { VNACAL_U16, 2, 2, 0, 0, 0, 1 },
 };
 #define NSHAPE_QUICK ((int)(sizeof(shapes_quick) / sizeof(shapes_quick[0])))
 static const shape_t shapes_more[] = {
@@ -183,9 +188,17 @@ static int universe0(cs_scenario *sc, const shape_t *sh, int tier)
 		add_std(sc, CSE_DOUBLE, 2, 1, 2, sp, NULL);
 	    }
 	    add_std(sc, CSE_LINE, 2, 1, 2, ln, NULL);
-	    if (tier) {
+	    if (tier && !sh->p16) {
 		int d[4] = { PD0, PD0 + 1, PD0 + 2, PD0 + 3 };
 		add_std(sc, CSE_LINE, 2, 1, 2, d, NULL);
+	    }
+	    if (sh->p16) {
+		/* standards that leave a port open: a 16-term type still
+		   gets an equation from every measured row (column) */
+		int s1 = PS, o2 = PO, r1 = PR4;
+		add_std(sc, CSE_SINGLE, 1, 1, 0, &s1, NULL);
+		add_std(sc, CSE_SINGLE, 1, 2, 0, &o2, NULL);
+		add_std(sc, CSE_SINGLE, 1, 1, 0, &r1, NULL);
 	    }
 	} else {
 	    int nd = tier ? 8 : 6;
@@ -349,11 +362,20 @@ static void classify(int shp, const cs_scenario *uni, unsigned mask,
     if (!c->known) {
 	long double m;
 	int e;
-	c->ident = (signed char)cs_identifiable(uni, mask, &m, &e, &u);
-	c->margin = (float)m;
-	c->eqs = (short)(e > 30000 ? 30000 : e);
-	c->eqtot = (short)cs_last_eq_total;
-	c->unktot = (short)cs_last_unknown_total;
+	if (shape(shp)->p16) {
+	    int rk = cs_terms_rank16(uni, mask, &m, &e, &u);
+	    c->ident = (signed char)(rk > 0);
+	    c->margin = (float)m;
+	    c->eqs = (short)e;
+	    c->eqtot = (short)e;
+	    c->unktot = (short)u;
+	} else {
+	    c->ident = (signed char)cs_identifiable(uni, mask, &m, &e, &u);
+	    c->margin = (float)m;
+	    c->eqs = (short)(e > 30000 ? 30000 : e);
+	    c->eqtot = (short)cs_last_eq_total;
+	    c->unktot = (short)cs_last_unknown_total;
+	}
 	c->known = 1;
     }
     g_eqtot = c->eqtot;
